@@ -170,6 +170,7 @@ def stepSetOp (R : Render K Unit) (other : Nat → Raw K Unit) : SetOp K Q → S
   | .fmt kind => do pure (.str (← fmtSet R kind))
   | .drop => do dropAndRenew E; pure .unit
   | .forget => do forgetMap; pure .unit
+  | .serde _ => pure .unit
 
 end
 
@@ -206,9 +207,26 @@ def assignSet (sys : Sys K V Q) (dst cap : Nat) (build : SM K Unit Q Unit) : Res
     | .panic c s' => .panic c { sys with sets := updReg sys.sets dst s.r, w := sys.w.mergeUnit s'.w }
     | .ok _ s' => .ok () { sys with sets := updReg sys.sets dst s.r, w := sys.w.mergeUnit s'.w }
 
+/-- what the caller sees of a token stream: the announced length and the number of entries. -/
+def Tok.isEntry {K V : Type} : Tok K V → Bool
+  | .entry _ _ => true
+  | _ => false
+
+def tokSummary {K V : Type} (toks : List (Tok K V)) : RV K V :=
+  .list [ (match toks with | .start (some n) :: _ => .nat n | _ => .none),
+          .nat (toks.filter Tok.isEntry).length,
+          .tag "ok" ]
+
 def stepCore (sys : Sys K V Q) : Op K V Q → Res (Sys K V Q) (RV K V)
   | .map reg op =>
     match op with
+    | .serde dst =>
+      match serializeR (Q := Q) (sys.maps reg) ⟨sys.maps reg, sys.w⟩ with
+      | .ub => .ub
+      | .panic c s => .panic c { sys with w := s.w }
+      | .ok toks s =>
+        match assignMap E { sys with w := s.w } dst (sys.maps dst).cap (deserializeInto E toks) with
+        | .ok _ s' => .ok (tokSummary toks) s' | .panic c s' => .panic c s' | .ub => .ub
     | .clone_to dst =>
       let src := sys.maps reg
       match assignMap E sys dst src.cap (cloneInto E src) with
@@ -219,6 +237,14 @@ def stepCore (sys : Sys K V Q) : Op K V Q → Res (Sys K V Q) (RV K V)
     | op => runOnMap sys reg (stepMapOp E R sys.maps op)
   | .set reg op =>
     match op with
+    | .serde dst =>
+      match serializeR (Q := Q) (sys.sets reg) ⟨sys.sets reg, sys.w.toUnit⟩ with
+      | .ub => .ub
+      | .panic c s => .panic c { sys with w := sys.w.mergeUnit s.w }
+      | .ok toks s =>
+        match assignSet E { sys with w := sys.w.mergeUnit s.w } dst (sys.sets dst).cap
+            (deserializeInto E.toUnit toks) with
+        | .ok _ s' => .ok (tokSummary toks).castU s' | .panic c s' => .panic c s' | .ub => .ub
     | .clone_to dst =>
       let src := sys.sets reg
       match assignSet E sys dst src.cap (cloneInto E.toUnit src) with
@@ -240,6 +266,8 @@ def stepCore (sys : Sys K V Q) : Op K V Q → Res (Sys K V Q) (RV K V)
 def touched : Op K V Q → List Nat × List Nat
   | .map reg (.clone_to dst) => ([reg, dst], [])
   | .map reg (.eq o) => ([reg, o], [])
+  | .map reg (.serde dst) => ([reg, dst], [])
+  | .set reg (.serde dst) => ([], [reg, dst])
   | .map reg _ => ([reg], [])
   | .set reg (.clone_to dst) => ([], [reg, dst])
   | .set reg (.eq o) => ([], [reg, o])
